@@ -173,6 +173,12 @@ func (e *enumerator) closureBody(call *ast.CallExpr) *ast.BlockStmt {
 		e.closures = map[*ast.CallExpr]*ast.BlockStmt{}
 	}
 	var out *ast.BlockStmt
+	// a function literal called where it stands (a callback parameter of a followed helper replaced
+	// by the literal the caller passed): its body runs here
+	if lit, ok := ast.Unparen(call.Fun).(*ast.FuncLit); ok && len(call.Args) == 0 && lit.Type.Params.NumFields() == 0 {
+		e.closures[call] = lit.Body
+		return lit.Body
+	}
 	if id, ok := ast.Unparen(call.Fun).(*ast.Ident); ok {
 		if v, ok := e.c.Info.Uses[id].(*types.Var); ok && !v.IsField() && v.Parent() != nil && v.Pkg() != nil && v.Parent() != v.Pkg().Scope() {
 			if lit := e.closureDef(v); lit != nil && !variadicLit(lit) {
